@@ -143,6 +143,12 @@ def run(ctx):
     corpus.setdefault(struct.pack(">H", B.seq_t) + int_bytes(B, 2 ** 14) + struct.pack(">H", B.null_t) * (2 ** 14), "wide-nulls")
     for depth in (50, 900, 3000, 20000) if not ctx.quick else (50, 900, 3000):
         corpus.setdefault((struct.pack(">H", B.seq_t) + int_bytes(B, 1)) * depth + struct.pack(">H", B.null_t), "deep-nesting")
+    # amplification by nesting: every level announces the maximal element count and holds nothing but the next level
+    for tid in (B.seq_t, B.set_t, B.map_t):
+        for n in (2 ** 14, 2 ** 14 - 1, 255):
+            for depth in (8, 64, 235, 900):
+                corpus.setdefault((struct.pack(">H", tid) + int_bytes(B, n)) * depth, "nested-announced-length")
+                corpus.setdefault((struct.pack(">H", B.seq_t) + int_bytes(B, 2) + struct.pack(">H", B.null_t) + struct.pack(">H", tid) + int_bytes(B, n)) * depth, "nested-announced-length")
     for cls in sorted(registered, key=lambda c: c.type_id):
         nf = len(getattr(cls, "_fields", ()) or ())
         for n in (0, 1, nf, nf + 1, 255, 2 ** 31 - 1, 2 ** 62, -1):
